@@ -75,6 +75,8 @@ pub fn raw_expressions() -> Vec<(&'static str, &'static str, &'static str, i32, 
         ("mkdir() { echo \"mkdir called: $*\"; }; grep() { echo mock grep; }; echo hi", "hi\n", "", 0, ""),
         ("echo() { printf 'E:%s\\n' \"$*\"; }; echo hi", "E:hi\n", "", 0, ""),
         ("set -x; echo hi", "hi\n", "+ echo hi\n", 0, "shell-tracing"),
+        // leaves a working directory behind that does not exist any more: restoring it must not talk on the next test's stderr
+        ("mkdir gone && cd gone && rmdir ../gone && echo left", "left\n", "", 0, ""),
     ]
 }
 
